@@ -8,6 +8,7 @@ Layout of one case (everything lives under the case directory, which lives under
     <case>/u1/u2/u3/u4/top/p/od/x      outside canary dir with a file "A"
     <case>/u1/u2/u3/u4/top/p/od/e/x    nested canary
     <case>/u1/u2/u3/u4/top/p/ol        outside canary symlink -> of
+    <case>/u1/u2/u3/u4/top/p/repo-x/f  sibling directory sharing the work tree's name prefix, file "A"
     <case>/u1/u2/u3/u4/top/p/repo      work tree W, with .git (canaries: config, hooks/, hooks/h)
     <case>/u1/u2/u3/u4/top/src.git     source of a clone (CL)
 
@@ -63,6 +64,9 @@ class Case:
             with open(os.path.join(self.p, rel), "wb") as f:
                 f.write(CONTENT["A"])
         os.symlink("of", os.path.join(self.p, "ol"))
+        os.mkdir(os.path.join(self.p, "repo-x"))      # sibling whose name has the work tree's name as a prefix
+        with open(os.path.join(self.p, "repo-x", "f"), "wb") as f:
+            f.write(CONTENT["A"])
         self.W = os.path.join(self.p, "repo")
         self.prot = prot
         self.repo = None
@@ -149,14 +153,24 @@ class Case:
                 out.append((tuple(prefix) + tuple(e["n"]), k))
         return out
 
-    def patch_for(self, entries) -> bytes:
-        out = []
-        for path, k in self.flat_files(entries):
-            name = self.raw_name(path)
-            out.append(b"diff --git a/" + name + b" b/" + name + b"\n"
-                       b"new file mode %o\n" % MODES[k["m"]] +
-                       b"--- /dev/null\n+++ b/" + name + b"\n@@ -0,0 +1 @@\n+" + CONTENT[k["c"]])
-        return b"".join(out)
+    def file_patch(self, path, k) -> bytes:
+        """One file patch for the regular-file entry (path, k): if the path currently resolves to a
+        regular file (through links; read only) a patch that replaces all its lines, else a
+        'new file' patch."""
+        name = self.raw_name(path)
+        full = os.path.join(os.fsencode(self.W), name)
+        old = None
+        if os.path.isfile(full):
+            with open(full, "rb") as f:
+                data = f.read()
+            if data.endswith(b"\n"):
+                old = data.splitlines(keepends=True)
+        if old is None:
+            return (b"diff --git a/" + name + b" b/" + name + b"\nnew file mode %o\n" % MODES[k["m"]] +
+                    b"--- /dev/null\n+++ b/" + name + b"\n@@ -0,0 +1 @@\n+" + CONTENT[k["c"]])
+        cnt = b"1" if len(old) == 1 else b"1,%d" % len(old)
+        return (b"diff --git a/" + name + b" b/" + name + b"\n--- a/" + name + b"\n+++ b/" + name +
+                b"\n@@ -" + cnt + b" +1 @@\n" + b"".join(b"-" + ln for ln in old) + b"+" + CONTENT[k["c"]])
 
     # ------------------------------------------------------------------ operations
     def run(self, op: str, entries):
@@ -228,10 +242,13 @@ class Case:
         porcelain.stash_pop(r)
 
     def op_AP(self, entries):
-        patch = self.patch_for(entries)
-        if not patch:
-            return
-        porcelain.apply_patch(self.repo, io.BytesIO(patch))
+        # one file patch per regular file, in tree order; apply_patches handles the files of one
+        # patch one after the other (index written after each), so this is the same as one patch
+        for path, k in self.flat_files(entries):
+            porcelain.apply_patch(self.repo, io.BytesIO(self.file_patch(path, k)))
+
+    def op_RM(self, entries):
+        porcelain.reset(self.repo, "mixed", self._commit_for(entries))
 
     # ------------------------------------------------------------------ observation
     def link_comps(self, target: bytes):
@@ -354,7 +371,7 @@ class Case:
         st = self.repo.object_store
         for path in idx:
             e = idx[path]
-            comps = tuple(comp_token(c) for c in path.split(b"/"))
+            comps = tuple(self.link_comps(path))       # an absolute name is reported relative to <top>
             try:
                 data = st[e.sha].data
             except Exception:  # noqa: BLE001
